@@ -392,6 +392,11 @@ package engine
 //@   requires gp != nil && wrapperOK(gp, gw) && gget(inlist, gw) == 0 && gw.rulebuilder != nil && gw.rulebuilder.Dc != nil
 //@   ensures [C17] returned: gget(inlist, gw) == 1
 //@   ensures [C06] cleaned: !(reqName in gw.rulebuilder.Dc.base) && !(respName in gw.rulebuilder.Dc.base)
+//@   ghost ndel int = 0
+//@   oncall (*context.DataContext).Del
+//@     after ndel := ndel + 1
+//@   oncall (*GenginePool).putGengineLocked
+//@     assert [C06] cleanedfirst: ndel >= 1
 //@   modifies frame poolrequest
 //@   nopanic
 
